@@ -177,9 +177,12 @@ Print Assumptions C11_multi_let_value_agrees.
 Theorem C11_multi_let_error_agrees : forall p s, tr_let_error p [s] = Some (CalcTraits.tr_let_error p s).
 Proof. exact let_error_agrees_binary. Qed.
 Print Assumptions C11_multi_let_error_agrees.
-Theorem C11_multi_when_all_agrees : forall a b, tr_when_all_asfound [a; b] = Some (CalcTraits.tr_when_all a b).
+Theorem C11_multi_when_all_agrees : forall a b, tr_when_all [a; b] = Some (CalcTraits.tr_when_all a b).
 Proof. exact when_all_agrees_binary. Qed.
 Print Assumptions C11_multi_when_all_agrees.
+Theorem C11_multi_stop_when_agrees : forall a b, tr_stop_when a b = CalcTraits.tr_stop_when a b.
+Proof. exact stop_when_agrees_binary. Qed.
+Print Assumptions C11_multi_stop_when_agrees.
 
 (* ---- the seeded formula (affinity as a disjunction over the successors) is unsound ------------ *)
 Theorem C11_multi_let_value_disjunction_unsound :
